@@ -1373,9 +1373,10 @@ def result_poly(key):
     return _pmul(a, b)
 
 
-def implied_same_value(key, audit):
+def implied_same_value(key, audit, le=False):
     """an unsigned addition / multiplication whose mathematical result is the same polynomial (non-negative coefficients) as
-    the result of an audited addition / multiplication of the same function fits the type as well. Returns that key."""
+    the result of an audited addition / multiplication of the same function - or, with le=True, term by term at most that
+    polynomial (all atoms are unsigned values) - fits the type as well. Returns that key."""
     mine = result_poly(key)
     if not mine or any(c < 0 for c in mine.values()):
         return None
@@ -1384,6 +1385,22 @@ def implied_same_value(key, audit):
         if k == key or k.split('|')[0] != fn:
             continue
         theirs = result_poly(k)
-        if theirs == mine:
+        if not theirs or any(c < 0 for c in theirs.values()):
+            continue
+        if theirs == mine or (le and all(theirs.get(m, 0) >= c for m, c in mine.items())):
             return k
+    return None
+
+
+def implied(key, audit, o):
+    """(audited key, reason) if the unaudited obligation `key` follows from an audited one of the same function"""
+    if not str(o.get('ty', '')).startswith('u'):
+        return None
+    k0 = implied_partial_sum(key, audit)
+    if k0:
+        return k0, 'partial sum of unsigned terms of the audited sum `%s`: %s' % (k0.split('|')[2][:80], audit[k0])
+    k0 = implied_same_value(key, audit, le=True)
+    if k0:
+        return k0, 'unsigned value that is term by term at most the value of the audited operation `%s`: %s' % (
+            k0.split('|')[2][:80], audit[k0])
     return None
